@@ -510,6 +510,7 @@ fn case_tok(rep: &mut Report, tok: &str, ci: usize) {
     let mut reported_a = false;
     let mut reported_b = false;
     let mut reported_d = false;
+    let mut reported_q = false;
     for qi in 0..N_Q {
         let q = Q::from_index(qi);
         let r = lexpr::from_str_custom(&input, q.to_lexpr());
@@ -528,6 +529,26 @@ fn case_tok(rep: &mut Report, tok: &str, ci: usize) {
             }
         }
         rep.distinct(hash2(hash_str(&input), qi as u64));
+        // ---- (c) under a quotation shorthand: whatever the token reads as, an accepted
+        // input is exactly (head X) with the head the shorthand stands for
+        if !reported_q && matches!(cx.name, "quoted" | "unquote-space" | "unquote-comment" | "unquote-splicing-in-list" | "quasiquote-space-in-vector") {
+            // only for tokens that are one datum by themselves under this option set
+            // (`?ab` is two under Emacs character syntax: the shorthand takes the first)
+            let alone = lexpr::from_str_custom(tok, q.to_lexpr());
+            if let (Ok(v), Ok(x)) = (&r, &alone) {
+                rep.count("quotation:shape-judged");
+                let got = slot(cx, &q, v);
+                if got.as_ref().map_or(true, |g| crate::model::cmp::veq(g, x, crate::model::cmp::FloatRule::Bits).is_err()) {
+                    reported_q = true;
+                    rep.violation(
+                        "quotation",
+                        format!("C08:quotation-shorthand-shape:{}", cx.name),
+                        format!("input {:?} with {}: read as {}, not as the two-element list headed by the symbol this shorthand stands for followed by what {:?} reads as alone ({})", show_str(&input), q.describe(), dbg_value(v), tok, dbg_value(x)),
+                        json!({"input": input, "q_index": qi}),
+                    );
+                }
+            }
+        }
         // ---- (b) non-interference
         let key = project(&q, mask);
         let rk = result_key(&r);
